@@ -49,7 +49,16 @@ def programs(tier):
               'let r = select ("zz") => {a = 1};', 'let r = select ("zz", %s) => {a = 1};' % P(1), 'let r = select (%s, 1) => {a = 1};' % P(1),
               'let r = select (%s > %s) => { true = 1 };' % (P(1), P(2)),
               'let r = select (%s > %s, select (%s > 0, 5) => {true = 6}) => { true = select (%s > 1) => {true = 1, false = 2} };' % (P(1), P(2), P(3), P(3)),
-              'let r = select ("b", 0) => {a = 1 / (%s - %s), b = %s};' % (P(1), P(1), P(2))]:
+              'let r = select ("b", 0) => {a = 1 / (%s - %s), b = %s};' % (P(1), P(1), P(2)),
+              # boolean scrutinee with arms that are named neither true nor false
+              'let r = select (%s > %s, "d") => {other = "O", false = "F"};' % (P(1), P(2)),
+              'let r = select (%s > %s, "d") => {other = "O"};' % (P(1), P(2)),
+              'let r = select (%s > %s) => {other = %s};' % (P(1), P(2), P(3)),
+              'let r = select (%s > %s, 0) => {zz = 1, true = %s, yy = 2};' % (P(1), P(2), P(3)),
+              'let r = select (%s == %s, 0) => {"True" = 1, "FALSE" = 2, "" = 3};' % (P(1), P(2)),
+              # string scrutinee with arms named like booleans and numbers
+              'let k = select (%s > %s) => {true = "true", false = "false"}; let r = select (k, 0) => {true = %s, false = 2};' % (P(1), P(2), P(3)),
+              'let r = select ("1", 0) => {"1" = %s, "2" = 2};' % P(1)]:
         add('F4-select', t, 3)
     for t in ['let t = {a = %s, b = [%s, %s]}; let r = t.b.1 + t.a;' % (P(1), P(2), P(3)), 'let t = {a = %s}; let r = t.c;' % P(1),
               'let t = [%s, %s]; let r = t.5;' % (P(1), P(2)), 'let r = %s in [%s, 3];' % (P(1), P(2)), 'let r = "a" in {a = %s};' % P(1), 'let r = a in {a = 1};',
